@@ -7,14 +7,14 @@
 (*    ObjTree(cls, tag, v, ver)   the TTLV tree of value v under version   *)
 (*    WellTyped(cls, v, ver)      v is a value of class cls defined by ver *)
 (***************************************************************************)
-EXTENDS KmipSchemaCore, SchemaBase, SchemaObjects, SchemaPayloads1, SchemaPayloads2, SchemaPayloads3, SchemaMessages
+EXTENDS KmipSchemaCore, SchemaBase, SchemaObjects, SchemaPayloads1, SchemaPayloads2, SchemaPayloads3, SchemaPayloads4, SchemaMessages
 
-Schema == SchemaBaseT @@ SchemaObjectsT @@ SchemaPayloads1T @@ SchemaPayloads2T @@ SchemaPayloads3T @@ SchemaMessagesT
-ClassTag == ClassTagBase @@ ClassTagObjects @@ ClassTagPayloads1 @@ ClassTagPayloads2 @@ ClassTagPayloads3 @@ ClassTagMessages
+Schema == SchemaBaseT @@ SchemaObjectsT @@ SchemaPayloads1T @@ SchemaPayloads2T @@ SchemaPayloads3T @@ SchemaPayloads4T @@ SchemaMessagesT
+ClassTag == ClassTagBase @@ ClassTagObjects @@ ClassTagPayloads1 @@ ClassTagPayloads2 @@ ClassTagPayloads3 @@ ClassTagPayloads4 @@ ClassTagMessages
 Classes == DOMAIN Schema
 
 \* first / last version that defines the class itself
-ClassSince == ClassSinceBase @@ ClassSinceObjects @@ ClassSincePayloads1 @@ ClassSincePayloads2 @@ ClassSincePayloads3 @@ ClassSinceMessages
+ClassSince == ClassSinceBase @@ ClassSinceObjects @@ ClassSincePayloads1 @@ ClassSincePayloads2 @@ ClassSincePayloads3 @@ ClassSincePayloads4 @@ ClassSinceMessages
 DefinedIn(cls, ver) == IF cls \in DOMAIN ClassSince THEN ClassSince[cls][1] <= ver /\ ver <= ClassSince[cls][2] ELSE TRUE
 
 Live(f, ver) == f.lo <= ver /\ ver <= f.hi
